@@ -73,7 +73,7 @@ func (r *Rot) Next() *Tracer {
 		r.cur = nil
 	}
 	if r.cur == nil {
-		p := r.Dir + "/trace-" + strconv.Itoa(1000+r.idx)[1:] + ".ndjson"
+		p := r.Dir + "/trace-" + strconv.Itoa(1000 + r.idx)[1:] + ".ndjson"
 		r.idx++
 		t, err := NewTracer(p)
 		if err != nil {
